@@ -11,11 +11,11 @@ C02 — what `Model/BlockProc.lean` left outside, added on top of it without cha
    (backend.c:319-321).  `Model/BlockProc.lean` already has both exits and takes the pool's answers as the parameter
    `Params.ans`; a failing serial pool is just another behaviour, `failSerialAns` (the C09 model `Pool.Serial` run with
    the callbacks' return values `workRc`).
-   Consequence for the **current** code: a failure that no later `submit` / NULL-`dequeue` observes is swallowed —
-   `finish` returns 0 and the block is stored uncompressed; whether that happens depends on `max_backlog` (serial pool)
-   and on the schedule (threaded pool).  Witness: `Sqfs/Witness/C02.lean`.
-   **Repaired** code (fixes/C02-report-worker-failure.patch): `sqfs_block_processor_sync` ends with
-   `return proc->pool->get_status(proc->pool)` — `syncChecked`, `finishChecked`, `Variant.checked`.
+   Consequence for the code **before /repo 69db961**: a failure that no later `submit` / NULL-`dequeue` observes is
+   swallowed — `finish` returns 0 and the block is stored uncompressed; whether that happens depends on `max_backlog`
+   (serial pool) and on the schedule (threaded pool).  Witness: `Sqfs/Witness/C02.lean` (`finishDrain`, `Variant` false).
+   **Current** code (69db961 = fixes/C02-report-worker-failure.patch): `sqfs_block_processor_sync` ends with
+   `return proc->pool->get_status(proc->pool)` — that is `sync` / `finish` of `Model/BlockProc.lean` itself.
 2. **`sqfs_block_processor_submit_block`** (frontend.c:223-251): `submitBlock`.
 3. **API scripts**: files, manual submissions and `sqfs_block_processor_sync` calls between them (`ApiOp`, `runOps`).
 
@@ -56,19 +56,16 @@ def failStatus (fails : Bytes → Bool) (rc : Int) (p : PoolSt) : Int :=
 def failParams (P : Params) (fails : Bytes → Bool) (rc : Int) : Params :=
   { P with codec := failCodec P.codec fails, ans := failSerialAns fails rc }
 
-/-! ### the repaired `sync` / `finish` -/
+/-! ### the `sync` / `finish` of a tree without /repo 69db961
 
-/-- repaired `sqfs_block_processor_sync`: the drain, then `return proc->pool->get_status(proc->pool);` -/
-def syncChecked (P : Params) (s : Proc) : Except Err Proc :=
-  match sync P s with
-  | .error e => .error e
-  | .ok s1 =>
-    if (poolStatus P s1.pool).2 ≠ 0 then .error (.pool (poolStatus P s1.pool).2)
-    else .ok { s1 with pool := (poolStatus P s1.pool).1 }
+`Model/BlockProc.lean` models the code as it is: `sync` ends with `return proc->pool->get_status(proc->pool)`.  The functions
+below are the code *before* that repair (`sync` = the drain alone).  They are kept for two reasons only: the witness of the
+repaired defect (`Sqfs/Witness/C02.lean`) and so that the check can tell a tree that lacks the repair (seeded reverts) from one
+that has it (`Variant`). -/
 
-/-- `sqfs_block_processor_finish` on top of the repaired `sync` -/
-def finishChecked (P : Params) (s : Proc) : Except Err Proc :=
-  match syncChecked P s with
+/-- `sqfs_block_processor_finish` before 69db961: on top of the drain alone -/
+def finishDrain (P : Params) (s : Proc) : Except Err Proc :=
+  match syncDrain P s with
   | .error e => .error e
   | .ok s1 =>
     match s1.fragBlock with
@@ -76,13 +73,14 @@ def finishChecked (P : Params) (s : Proc) : Except Err Proc :=
     | some fb =>
       match enqueueBlock P { s1 with fragBlock := none, ioSeqNum := s1.ioSeqNum + 1 } { fb with seq := s1.ioSeqNum } with
       | .error e => .error e
-      | .ok s2 => syncChecked P s2
+      | .ok s2 => syncDrain P s2
 
-/-- which `sync` the tree under test has: `false` = current /repo, `true` = with the repair -/
+/-- which `sync` the tree under test has: `true` = the current code (/repo since 69db961, `sync` returns the pool status),
+`false` = a tree without that repair -/
 abbrev Variant := Bool
 
-def syncV (v : Variant) (P : Params) (s : Proc) : Except Err Proc := if v then syncChecked P s else sync P s
-def finishV (v : Variant) (P : Params) (s : Proc) : Except Err Proc := if v then finishChecked P s else finish P s
+def syncV (v : Variant) (P : Params) (s : Proc) : Except Err Proc := if v then sync P s else syncDrain P s
+def finishV (v : Variant) (P : Params) (s : Proc) : Except Err Proc := if v then finish P s else finishDrain P s
 
 /-- the run of `Model/BlockProc.lean` (`runProc`) with the chosen `finish` -/
 def runProcV (v : Variant) (P : Params) (mb : Nat) (files : List InFile) : Except Err Proc :=
